@@ -24,7 +24,8 @@ StarForms(s) ==
   IF sl = 0 THEN {}
   ELSE {head \o JoinBar(ins(k)) : k \in 0..n}
        \cup {head \o JoinBar([parts EXCEPT ![k] = <<42>>]) : k \in 1..n}
-       \cup {head \o e : e \in {<<>>, <<124>>, <<124, 124>>, <<32>>, <<32, 124, 32>>, <<42, 124, 42>>}}
+       \cup {head \o e : e \in {<<>>, <<124>>, <<124, 124>>, <<32>>, <<32, 124, 32>>, <<42, 124, 42>>,
+                               <<42, 42>>, <<42, 32, 42>>, <<42, 42, 42>>, <<42, 42, 124, 42, 42>>, <<32, 42, 42, 32>>}}
 Corruptions(s) == (Deleted(s) \cup Replaced(s) \cup Inserted(s) \cup StarForms(s)) \ {s}
 
 \* ckind remembers which set the seed came from ("s" corrupted, "r" emitted as is): a membership test in the
